@@ -1472,7 +1472,10 @@ class Key(object):
         :return str: BIP38 password encrypted private key
         """
         flagbyte = b'\xe0' if self.compressed else b'\xc0'
-        return bip38_encrypt(self.private_hex, self.address(), password, flagbyte)
+        # BIP38 salts with the hash of the P2PKH address, whatever address type this key normally uses
+        address = Address(self.public_byte, network=self.network, script_type='p2pkh', encoding='base58',
+                          compressed=self.compressed).address
+        return bip38_encrypt(self.private_hex, address, password, flagbyte)
 
     def wif(self, prefix=None):
         """
@@ -2022,8 +2025,8 @@ class HDKey(Key):
         priv, addresshash, compressed, _ = bip38_decrypt(encrypted_privkey, password, network or DEFAULT_NETWORK)
         # compressed = True if priv[-1:] == b'\1' else False
 
-        # Verify addresshash
-        k = HDKey(priv, compressed=compressed, network=network, witness_type=witness_type)
+        # Verify addresshash, BIP38 uses the P2PKH address whatever the witness type of this key
+        k = Key(priv, compressed=compressed, network=network)
         addr = k.address()
         if isinstance(addr, str):
             addr = addr.encode('utf-8')
